@@ -27,8 +27,12 @@ Nodes == 1..N
 Kinds == {"param", "val", "def", "ty"}
 Perms == {p \in [1..N -> Nodes] : \A i, j \in 1..N : i # j => p[i] # p[j]}
 
-VARIABLES kinds, G, pos
-vars == <<kinds, G, pos>>
+VARIABLES kinds, G, pos,
+          site      \* where a value contribution mentions the type aliases it depends on: in its right-hand side
+                    \* ("rhs"), in the annotation of the binding ("ann": let t : Thk (Ret T) = ..) or in an annotation
+                    \* inside the binder PATTERN ("pat": let (t : Thk (Ret T)) = ..) - a dependency wherever it is written
+vars == <<kinds, G, pos, site>>
+Sites == {"rhs", "ann", "pat"}
 
 Allowed(k) == {e \in Nodes \X Nodes :
                  \/ k[e[1]] = "val"
@@ -42,6 +46,7 @@ ParamsOrdered(k, p) == \A a, b \in 1..N : (a < b /\ k[p[a]] = "param" /\ k[p[b]]
 Init == /\ kinds \in [Nodes -> Kinds]
         /\ G \in {g \in SUBSET Allowed(kinds) : SingleRef(kinds, g)}
         /\ pos \in {p \in Perms : ParamsOrdered(kinds, p)}
+        /\ site \in (IF \E e \in G : kinds[e[1]] = "val" /\ kinds[e[2]] = "ty" THEN Sites ELSE {"rhs"})
 Next == UNCHANGED vars
 Spec == Init /\ [][Next]_vars
 
@@ -87,7 +92,7 @@ Code == Total(Nodes) % 256
 
 (* the statement itself: the prediction does not mention pos *)
 EdgeSeq == LET RECURSIVE F(_) F(S) == IF S = {} THEN << >> ELSE LET e == CHOOSE e \in S : TRUE IN <<e>> \o F(S \ {e}) IN F(G)
-Report == PrintT(<<"REPLAY", ToJson([n |-> N, kinds |-> kinds, edges |-> EdgeSeq, pos |-> pos,
+Report == PrintT(<<"REPLAY", ToJson([n |-> N, kinds |-> kinds, edges |-> EdgeSeq, pos |-> pos, site |-> site,
                      accepted |-> Accepted, code |-> IF Accepted THEN Code ELSE -1,
                      args |-> IF Accepted THEN ArgOrder ELSE << >>])>>)
 =============================================================================
